@@ -43,10 +43,15 @@ func ruleAztecState(c *Ctx) {
 		// latch block: the one that reads latchTable
 		var latchBlk *ssa.BasicBlock
 		var lookups []*ssa.Lookup
-		eachInstr(fn, func(b *ssa.BasicBlock, ins ssa.Instruction) {
-			if lk, ok := ins.(*ssa.Lookup); ok {
+		var lastSite DeepSite
+		c.P.deepEach(fn, 1, func(s DeepSite) {
+			if lk, ok := s.Ins.(*ssa.Lookup); ok {
 				lookups = append(lookups, lk)
-				latchBlk = b
+				lastSite = s
+				latchBlk = s.Ins.Block()
+				if len(s.Path) > 0 {
+					latchBlk = s.Path[0].Block() // the call (in this function) of the helper that reads the table
+				}
 			}
 		})
 		if latchBlk == nil {
@@ -55,7 +60,7 @@ func ruleAztecState(c *Ctx) {
 			c.expectCond(R, "aztec.(*state).addBinaryShiftChar/latch-iff", latchBlk.Instrs[0].Pos(), n.ReachCond(fn, nil, latchBlk),
 				fmt.Sprintf("s.mode == %d || s.mode == %d", mv["mode_punct"], mv["mode_digit"]))
 			last := lookups[len(lookups)-1]
-			got := n.Norm(last).String()
+			got := n.NormAt(lastSite, last).String()
 			want := fmt.Sprintf("idx(idx(global:aztec.latchTable,s.mode),%d)", mv["mode_upper"])
 			c.Check(R, "aztec.(*state).addBinaryShiftChar/latch-entry", last.Pos(), got == want, want, got)
 		}
@@ -116,16 +121,20 @@ func ruleAztecState(c *Ctx) {
 		n.BindParams(fn, "s", "mode", "value")
 		var lk *ssa.Lookup
 		var blk *ssa.BasicBlock
-		eachInstr(fn, func(b *ssa.BasicBlock, ins ssa.Instruction) {
-			if l, ok := ins.(*ssa.Lookup); ok {
-				lk, blk = l, b
+		var lkSite DeepSite
+		c.P.deepEach(fn, 1, func(s DeepSite) {
+			if l, ok := s.Ins.(*ssa.Lookup); ok {
+				lk, blk, lkSite = l, s.Ins.Block(), s
+				if len(s.Path) > 0 {
+					blk = s.Path[0].Block()
+				}
 			}
 		})
 		if lk == nil {
 			c.Check(R, "aztec.(*state).latchAndAppend/latch", fn.Pos(), false, "latchTable lookup", "none")
 		} else {
 			c.expectCond(R, "aztec.(*state).latchAndAppend/latch-iff", lk.Pos(), n.ReachCond(fn, nil, blk), "mode != s.mode")
-			got := n.Norm(lk).String()
+			got := n.NormAt(lkSite, lk).String()
 			c.Check(R, "aztec.(*state).latchAndAppend/latch-entry", lk.Pos(), got == "idx(idx(global:aztec.latchTable,s.mode),mode)", "latchTable[s.mode][mode]", got)
 		}
 	}
